@@ -7,24 +7,24 @@ Import ListNotations.
 
 Definition sx_names (l : list str) : sx := SL (map SA l).
 (* per run: (structs-in-order decl_before_use corr parsed sorted-order-reproduced whole-module-constants-reproduced) *)
-Definition c09_run (p : project) (text : str) : sx :=
+Definition c09_run (m : list (str * str)) (p : project) (text : str) : sx :=
   let ob := observe_zod_order text in
-  SL [sx_names (c_structs ob); sx_bool (c_ok ob); sx_bool (c09_corr p ob); sx_bool (c_parsed ob); sx_bool (c09_sorted_order p ob);
-      sx_bool (c09_module_corr p text)].
+  SL [sx_names (c_structs ob); sx_bool (c_ok ob); sx_bool (c09_corr m p ob); sx_bool (c_parsed ob); sx_bool (c09_sorted_order p ob);
+      sx_bool (c09_module_corr m p text)].
 (* (in_domain spec_acyclic kf_result_alias edges_recorded agree model-order? (run ...)) *)
-Definition c09_eval (p : project) (texts : list str) : sx :=
+Definition c09_eval (p : project) (texts : list str) (m : list (str * str)) : sx :=
   SL [sx_bool (in_domain p); sx_bool (spec_acyclic p); sx_bool false;
       sx_bool (edges_recorded_b p && no_params_suffix p); sx_bool (agree_b p);
       sx_opt sx_names (emitted_zod o_default p);
-      SL (map (c09_run p) texts)].
+      SL (map (c09_run m p) texts)].
 
 (* large instances: the path-counting acyclicity test of the specification is skipped (the generator builds
    chains, ladders and fans that are acyclic by construction) *)
-Definition c09_eval_deep (p : project) (texts : list str) : sx :=
+Definition c09_eval_deep (p : project) (texts : list str) (m : list (str * str)) : sx :=
   SL [sx_bool (in_domain p); sx_bool true; sx_bool false;
       sx_bool (edges_recorded_b p && no_params_suffix p); sx_bool (agree_b p);
       sx_opt sx_names (emitted_zod o_default p);
-      SL (map (c09_run p) texts)].
+      SL (map (c09_run m p) texts)].
 
 Extraction Language OCaml.
 Extraction "tt_c09.ml" c09_eval c09_eval_deep.
